@@ -22,7 +22,7 @@ func ruleC07(r *Report) {
 	r.Rule("C07.verbatim", "string-typed fields are emitted as the field itself (no function of it); other kinds only through the fixed formatters (timeFormat, strconv); an emission is guarded by nothing but the emptiness of the same field", 60)
 	r.Rule("C07.order", "every slice field of a builder type is emitted by one range loop over that field that adds the element of each iteration unconditionally, in index order, with no early exit", 7)
 	r.Rule("C07.coverage", "every field of a type on the Response/Assertion path is read by its builder (a field the builder ignores is lost between IdP and SP)", 15)
-	r.Rule("C07.session", "the default assertion maker copies the session's name identifier, attribute strings, groups (in order) and custom attributes (whole, in order) verbatim into the assertion, guarded only by the emptiness of the same session field", 8)
+	r.Rule("C07.session", "the default assertion maker copies the session's name identifier, attribute strings, groups (in order) and custom attributes (whole, in order) verbatim into the assertion, guarded only by the emptiness of the same session field", 4)
 	r.Rule("C07.escape", "writer/reader escape agreement on the IdP's response path: every serialisation uses the canonical write settings (CR/LF/TAB in text and attribute values survive the SP's parser) and passes the module's attribute '>' escaper (encoding/xml refuses \"]]>\" even inside attribute values, canonical attribute escaping leaves '>' raw)", 1)
 
 	r.Rule("C07.prefixes", "every tree a non-builder function obtains from an Element() builder declares, at or below its root, each namespace prefix used by its element and attribute names", 3)
@@ -744,31 +744,139 @@ func checkSessionCopy(r *Report, p *Prog) {
 		return len(foreign) == 0, strings.Join(foreign, ", ")
 	}
 	n := 0
-	// every AttributeValue.Value and NameID.Value written in the maker
-	for _, tf := range [][2]string{{"AttributeValue", "Value"}, {"NameID", "Value"}} {
-		for _, st := range litFields(fn, modPath, tf[0])[tf[1]] {
-			n++
-			cons := fmt.Sprintf("%s: %s.%s at %s", p.FnName(fn), tf[0], tf[1], p.InstrPos(st))
-			okV := true
-			var srcs []string
-			for _, gl := range gatedLeaves(st.Val, nil, map[ssa.Value]bool{}) {
-				f, elem, why := sessionField(gl.v, 0)
-				if f == "" {
-					okV = false
-					srcs = append(srcs, why+" ("+fc.AP(gl.v)+")")
+	// every AttributeValue.Value and NameID.Value written in the maker or in the helpers it is split into; the value is
+	// traced back through those helpers, through phis and through a local table that a loop ranges over
+	rg := NewRegion(p, fn, 2)
+	isMakerSession := func(v RV) bool {
+		for _, o := range rg.Origins(v) {
+			if prm, ok := o.V.(*ssa.Parameter); !ok || prm.Parent() != fn || namedOf(prm.Type()) != sess {
+				return false
+			}
+		}
+		return true
+	}
+	sessionLeaf := func(v RV) (string, bool, string) {
+		ld, ok := v.V.(*ssa.UnOp)
+		if !ok {
+			if c, ok := v.V.(*ssa.Call); ok && c.Call.StaticCallee() != nil {
+				return "", false, "the result of " + shortFn(c.Call.StaticCallee())
+			}
+			if _, ok := v.V.(*ssa.BinOp); ok {
+				return "", false, "a computed string"
+			}
+			return "", false, fmt.Sprintf("a %T", v.V)
+		}
+		switch ad := ld.X.(type) {
+		case *ssa.FieldAddr:
+			if namedOf(ad.X.Type()) == sess && isMakerSession(RV{V: ad.X, C: v.C}) {
+				return fieldName(ad.X.Type(), ad.Field), false, ""
+			}
+			return "", false, "a field of something other than the session parameter"
+		case *ssa.IndexAddr:
+			// element of a slice field of the session, selected by a loop index
+			if sl, ok := ad.X.(*ssa.UnOp); ok {
+				if fa, ok := sl.X.(*ssa.FieldAddr); ok && namedOf(fa.X.Type()) == sess && isMakerSession(RV{V: fa.X, C: v.C}) {
+					if !isInduction(ad.Index) {
+						return "", false, "indexed by something other than the loop index"
+					}
+					return fieldName(fa.X.Type(), fa.Field), true, ""
+				}
+			}
+			return "", false, "an element of something other than a session slice"
+		}
+		return "", false, fmt.Sprintf("a load of %T", ld.X)
+	}
+	guardAt := func(blocks []RB, elem bool) (bool, string) {
+		var foreign []string
+		var names []string
+		for _, rb := range blocks {
+			cfc := rg.Ctx(a, rb.C)
+			cfc.ensureConds()
+			names = append(names, a.B.Support(cfc.AbsCond(rb.B))...)
+		}
+		for _, nm := range uniqStrings(names) {
+			ai := a.Atoms[nm]
+			if ai == nil {
+				continue
+			}
+			onSession := false
+			for _, ar := range ai.Args {
+				if strings.Contains(ar, "Session.") || strings.Contains(ar, "Session#") {
+					onSession = true
+				}
+			}
+			if !onSession {
+				continue // driven by the request or the SP's metadata
+			}
+			if ai.Kind == "empty" || ai.Kind == "isnil" || elem && ai.Kind == "lt" {
+				continue
+			}
+			if ai.Kind == "eq" {
+				isEmpty := false
+				for _, ar := range ai.Args {
+					if ar == `c:""` {
+						isEmpty = true
+					}
+				}
+				if isEmpty {
 					continue
 				}
-				srcs = append(srcs, "session."+f)
-				if okG, foreign := guard(st, f, elem, gl.via...); !okG {
-					okV = false
-					srcs = append(srcs, "under "+foreign)
+			}
+			foreign = append(foreign, nm)
+		}
+		return len(foreign) == 0, strings.Join(foreign, ", ")
+	}
+	fieldsSeen := map[string]bool{}
+	type groupSite struct {
+		st   RI
+		leaf RV
+	}
+	var groupSites []groupSite
+	for _, tf := range [][2]string{{"AttributeValue", "Value"}, {"NameID", "Value"}} {
+		for _, c := range rg.all {
+			r.Fn(p.FnName(c.fn))
+			for _, st := range litFields(c.fn, modPath, tf[0])[tf[1]] {
+				n++
+				cons := fmt.Sprintf("%s: %s.%s at %s", p.FnName(fn), tf[0], tf[1], p.InstrPos(st))
+				okV := true
+				var srcs []string
+				for _, gl := range rg.Origins(RV{V: st.Val, C: c}) {
+					if isEmptyStringConst(gl.V) {
+						continue // the empty string carries nothing
+					}
+					// an alternative that cannot reach this store (a helper's "not found" return the caller skips)
+					feas := rg.Ctx(a, c).AbsCond(st.Block())
+					for _, vb := range gl.Via {
+						vfc := rg.Ctx(a, vb.C)
+						vfc.ensureConds()
+						feas = a.B.And(feas, vfc.AbsCond(vb.B))
+					}
+					if feas == a.B.False {
+						continue
+					}
+					f, elem, why := sessionLeaf(gl)
+					if f == "" {
+						okV = false
+						srcs = append(srcs, why+" ("+rg.Ctx(a, gl.C).AP(gl.V)+")")
+						continue
+					}
+					srcs = append(srcs, "session."+f)
+					fieldsSeen[f] = true
+					if elem && f == "Groups" {
+						groupSites = append(groupSites, groupSite{RI{st, c}, gl})
+					}
+					if okG, foreign := guardAt(append([]RB{{st.Block(), c}}, gl.Via...), elem); !okG {
+						okV = false
+						srcs = append(srcs, "under "+foreign)
+					}
 				}
+				srcs = uniqStrings(srcs)
+				if tf[0] == "NameID" && okV && !(len(srcs) == 1 && srcs[0] == "session.NameID") {
+					okV = false
+					srcs = append(srcs, "(the subject's name identifier must be session.NameID itself)")
+				}
+				r.Check(okV && len(srcs) > 0, rule, cons, p.InstrPos(st), "<- "+strings.Join(srcs, " | "), "the value is "+strings.Join(srcs, " | ")+", not a session string copied verbatim under emptiness tests only")
 			}
-			if tf[0] == "NameID" && okV && !(len(srcs) == 1 && srcs[0] == "session.NameID") {
-				okV = false
-				srcs = append(srcs, "(the subject's name identifier must be session.NameID itself)")
-			}
-			r.Check(okV && len(srcs) > 0, rule, cons, p.InstrPos(st), "<- "+strings.Join(srcs, " | "), "the value is "+strings.Join(srcs, " | ")+", not a session string copied verbatim under emptiness tests only")
 		}
 	}
 	// custom attributes appended whole
@@ -790,31 +898,32 @@ func checkSessionCopy(r *Report, p *Prog) {
 		}
 	}
 	r.Check(okCustom, rule, p.FnName(fn)+": custom attributes appended whole", p.Pos(fn.Pos()), "append(attributes, session.CustomAttributes...)", "session.CustomAttributes is not appended as a whole slice (unconditionally)")
-	// groups: a range loop appending one value per element unconditionally
+	// groups: a range loop appending one value per element unconditionally (the value literal may be built by a helper
+	// called from the loop body)
 	okGroups := false
-	for _, st := range litFields(fn, modPath, "AttributeValue")["Value"] {
-		if f, elem, _ := sessionField(st.Val, 0); f == "Groups" && elem {
-			// the append that consumes this literal is in the same block
-			for _, in := range st.Block().Instrs {
-				if c, ok := in.(*ssa.Call); ok {
-					if bi, ok := c.Call.Value.(*ssa.Builtin); ok && bi.Name() == "append" {
-						o := &origin{elem: true}
-						if ld, ok := st.Val.(*ssa.UnOp); ok {
-							if ia, ok := ld.X.(*ssa.IndexAddr); ok {
-								o.idx = ia.Index
-							}
-						}
-						if okL, _ := unconditionalInLoop(c, o); okL {
-							okGroups = true
-						}
+	for _, gs := range groupSites {
+		pos := rg.SiteIn(rg.top, gs.st)
+		ld, ok := gs.leaf.V.(*ssa.UnOp)
+		if pos == nil || !ok || gs.leaf.C != rg.top {
+			continue
+		}
+		ia, ok := ld.X.(*ssa.IndexAddr)
+		if !ok {
+			continue
+		}
+		for _, in := range pos.Block().Instrs {
+			if c, ok := in.(*ssa.Call); ok {
+				if bi, ok := c.Call.Value.(*ssa.Builtin); ok && bi.Name() == "append" {
+					if okL, _ := unconditionalInLoop(c, &origin{elem: true, idx: ia.Index}); okL {
+						okGroups = true
 					}
 				}
 			}
 		}
 	}
 	r.Check(okGroups, rule, p.FnName(fn)+": one attribute value per group, in order", p.Pos(fn.Pos()), "range over session.Groups appending each element", "session.Groups is not copied element by element in order")
-	if n < 5 {
-		r.Undecided(rule, "attribute value sites", "-", fmt.Sprintf("only %d value assignments found in the assertion maker", n))
+	if len(fieldsSeen) < 5 {
+		r.Undecided(rule, "attribute value sites", "-", fmt.Sprintf("only %d session fields found to be copied into values by the assertion maker (%d value sites)", len(fieldsSeen), n))
 	}
 }
 
